@@ -1046,9 +1046,30 @@ impl<'a> CompactionIterator<'a> {
 
 		// Check if latest version is DELETE at bottom level
 		// If so, we can completely remove this key from the database
+		//
+		// Exception: if an active snapshot still needs one of the older versions
+		// (it is the newest version inside that snapshot's visibility boundary),
+		// that version has to stay, and then the tombstone has to stay as well so
+		// that it keeps masking the older version for newer readers.
+		let mut older_version_needed_by_snapshot = false;
+		if self.is_bottom_level && self.accumulated_versions[0].0.is_hard_delete_marker() {
+			let mut newer_vis =
+				self.find_earliest_visible_snapshot(self.accumulated_versions[0].0.seq_num())?;
+			for (key, _) in self.accumulated_versions.iter().skip(1) {
+				let vis = self.find_earliest_visible_snapshot(key.seq_num())?;
+				if self.must_preserve_for_snapshot(vis)
+					&& !self.same_visibility_boundary(newer_vis, vis)
+				{
+					older_version_needed_by_snapshot = true;
+					break;
+				}
+				newer_vis = vis;
+			}
+		}
 		let latest_is_delete_at_bottom = self.is_bottom_level
 			&& !self.accumulated_versions.is_empty()
-			&& self.accumulated_versions[0].0.is_hard_delete_marker();
+			&& self.accumulated_versions[0].0.is_hard_delete_marker()
+			&& !older_version_needed_by_snapshot;
 
 		// Check if any version is REPLACE
 		// REPLACE semantics: delete all older versions regardless of retention
@@ -1126,8 +1147,9 @@ impl<'a> CompactionIterator<'a> {
 				// Latest PUT: never stale (will be output)
 				false
 			} else if is_latest && is_hard_delete && self.is_bottom_level {
-				// Latest DELETE at bottom: stale (won't be output)
-				true
+				// Latest DELETE at bottom: stale (won't be output), unless it still
+				// has to mask an older version that a snapshot needs
+				!older_version_needed_by_snapshot
 			} else if is_latest && is_hard_delete && !self.is_bottom_level {
 				// Latest DELETE at non-bottom: not stale (tombstone preserved)
 				false
